@@ -1,5 +1,5 @@
 #!/bin/bash
 # run every quick check on the current tree (refreshes /verif/evidence); exit 1 if any check does not exit 0
 cd "$(dirname "$0")"; rc=0
-for p in C01 C04 C06 C07 C10 C11 C12 C13 C14 C15 C16 C17 C18; do ./check $p --tier ${1:-quick} || rc=1; done
+for p in C01 C02 C04 C06 C07 C10 C11 C12 C13 C14 C15 C16 C17 C18; do ./check $p --tier ${1:-quick} || rc=1; done
 exit $rc
